@@ -388,17 +388,6 @@ Definition label_cf0 (l : label) : Prop :=
   | _ => True
   end.
 
-(* no Delete was lost: the sync remove reports an error when the buffer is full *)
-Definition no_lost_delete (c : cfg) (st : cstate) (l : label) : Prop :=
-  match l with
-  | LClient a =>
-      match client_of st a with
-      | KRemSend k cf => buf_send c st (IDelete k cf) <> None \/ s_pc st = PExited
-      | _ => True
-      end
-  | _ => True
-  end.
-
 (* ---- ZeroConf is an invariant of collision-free histories ---- *)
 Lemma clients_cf0_set st st1 a k :
   (forall b, cont_cf0 (client_of st b)) -> s_clients st1 = s_clients st -> cont_cf0 k ->
@@ -536,7 +525,7 @@ Proof.
       unfold ZeroConf; sproj. rewrite Eb, Ep, Est.
       split; [apply Forall_app; split; [assumption|constructor; [exact Za|constructor]]|].
       split; [|split; assumption]. apply (clients_cf0_set st); [assumption|assumption|exact I].
-    + destruct (c_async c); [destruct (s_pc st) eqn:PC; try discriminate|]; inversion H; subst; zc_cl ZC st.
+    + destruct (s_pc st) eqn:PC; try discriminate; inversion H; subst; zc_cl ZC st.
   - destruct (s_closed st); inversion H; subst; zc_cl ZC st.
   - destruct (mem_N id (s_done st)); [|discriminate]. inversion H; subst. zc_cl ZC st.
   - destruct (mem_N id (s_done st)); [|discriminate]. destruct closing; inversion H; subst; zc_cl ZC st.
@@ -808,9 +797,9 @@ Ltac ag_cl AG st K := apply (Agree_client_only st);
   | let kk := fresh in let cf := fresh in let X := fresh in intros kk cf X; rewrite K in X; discriminate X ].
 
 Lemma Agree_continue_client c st a st' o :
-  Agree st -> no_lost_delete c st (LClient a) -> continue_client c st a = StepOk st' o -> Agree st'.
+  Agree st -> continue_client c st a = StepOk st' o -> Agree st'.
 Proof.
-  intros AG NL H. pose proof AG as (A1 & A2 & P). unfold continue_client in H. cbn [no_lost_delete] in NL.
+  intros AG H. pose proof AG as (A1 & A2 & P). unfold continue_client in H.
   destruct (client_of st a) eqn:K; try discriminate.
   - destruct (buf_send c st it) as [st1|] eqn:E.
     + inversion H; subst. apply buf_send_frame in E. destruct E as (Es & Est & Eb & Ep & _ & Ec & _).
@@ -835,8 +824,7 @@ Proof.
       apply (Agree_client_only st); auto.
       * intros kk cf Hi. rewrite Eb. apply in_or_app. auto.
       * intros kk cf X. rewrite K in X. inversion X; subst. left. exists cf. rewrite Eb. apply in_or_app. right. left. reflexivity.
-    + destruct NL as [NL|NL]; [congruence|].
-      destruct (c_async c); [rewrite NL in H|]; inversion H; subst;
+    + destruct (s_pc st) eqn:NL; try discriminate. inversion H; subst;
         (apply (Agree_client_only st); sproj; auto; intros kk cf X; right; assumption).
   - destruct (s_closed st); inversion H; subst; ag_cl AG st K.
   - destruct (mem_N id (s_done st)); [|discriminate]. inversion H; subst. ag_cl AG st K.
@@ -1152,10 +1140,10 @@ Proof.
 Qed.
 
 Theorem Agree_step c st l st' o :
-  Agree st -> ZeroConf st -> label_cf0 l -> no_lost_delete c st l ->
+  Agree st -> ZeroConf st -> label_cf0 l ->
   cstep c st l = StepOk st' o -> Agree st'.
 Proof.
-  intros AG ZC L NL. destruct l as [a op|a|h|h|dt|]; cbn [cstep].
+  intros AG ZC L. destruct l as [a op|a|h|h|dt|]; cbn [cstep].
   - destruct (client_of st a) eqn:K; try discriminate. apply Agree_start_op; assumption.
   - apply Agree_continue_client; assumption.
   - apply Agree_proc_step; assumption.
@@ -1178,10 +1166,10 @@ Qed.
 Definition quiescent (st : cstate) : Prop :=
   s_buf st = [] /\ s_pc st = PIdle /\ (forall a, client_of st a = KIdle).
 
-(* runs in which every conflict hash is 0 and no Delete was lost to a full buffer *)
+(* runs in which every conflict hash is 0 *)
 Inductive reach_cf (c : cfg) (st0 : cstate) : cstate -> Prop :=
 | rcf_init : reach_cf c st0 st0
-| rcf_step st l st' o : reach_cf c st0 st -> label_cf0 l -> no_lost_delete c st l ->
+| rcf_step st l st' o : reach_cf c st0 st -> label_cf0 l ->
     cstep c st l = StepOk st' o -> reach_cf c st0 st'.
 
 Lemma init_agree c mc t now : Agree (cinit c mc t now) /\ ZeroConf (cinit c mc t now).
@@ -1196,14 +1184,14 @@ Qed.
 
 Lemma reach_cf_inv c mc t now st : reach_cf c (cinit c mc t now) st -> Agree st /\ ZeroConf st.
 Proof.
-  induction 1 as [|st l st' o R IH L NL S].
+  induction 1 as [|st l st' o R IH L S].
   - apply init_agree.
   - destruct IH as (AG & ZC). split; [eapply Agree_step; eassumption|eapply ZeroConf_step; eassumption].
 Qed.
 
 (* C06: whenever the cache is quiescent — after any history of inserts, updates, removes,
    expirations, evictions and clears, under any schedule of any number of client threads with the
-   processor, in either flavour — and no remove reported an error, a key is resident exactly when
+   processor, in either flavour — a key is resident exactly when
    it is charged. *)
 Theorem quiescent_agree c mc t now st :
   reach_cf c (cinit c mc t now) st -> quiescent st ->
@@ -1285,7 +1273,7 @@ Proof.
       * inversion H; subst; unfold emit; destruct (c_metrics c); sproj; assumption.
     + destruct (buf_send c st (IDelete k c0)) as [st1|] eqn:E.
       * inversion H; subst; sproj. apply buf_send_frame in E. destruct E as (_ & Est & _). rewrite Est. assumption.
-      * destruct (c_async c); [destruct (s_pc st); try discriminate|]; inversion H; subst; sproj; assumption.
+      * destruct (s_pc st); try discriminate; inversion H; subst; sproj; assumption.
     + destruct (s_closed st); inversion H; subst; sproj; assumption.
     + destruct (mem_N id (s_done st)); [|discriminate]. inversion H; subst; sproj; assumption.
     + destruct (mem_N id (s_done st)); [|discriminate]. destruct closing; inversion H; subst; sproj; assumption.
